@@ -622,3 +622,314 @@ Proof.
     exists (a_index it), (a_index it + a_len it). split; [|exact Hr].
     apply acc_out_cov. exists l, it. repeat split; auto; congruence.
 Qed.
+
+(* ------------------------------------------------------------------ expand: one mark on plain text *)
+Definition pos_char (it : item) : Prop := exists id w s, it = IChar id true w s /\ 0 < w.
+
+Fixpoint cw_sum (l : list item) : N :=
+  match l with
+  | [] => 0
+  | IChar _ true w _ :: t => w + cw_sum t
+  | _ :: t => cw_sum t
+  end.
+Fixpoint last_char (l : list item) (d : option opid) : option opid :=
+  match l with
+  | [] => d
+  | IChar id true _ _ :: t => last_char t (Some id)
+  | _ :: t => last_char t d
+  end.
+Fixpoint last_w (l : list item) (d : option N) : option N :=
+  match l with
+  | [] => d
+  | IChar _ true w _ :: t => last_w t (Some w)
+  | _ :: t => last_w t d
+  end.
+Definition ow (o : option N) : N := match o with Some x => x | None => 0 end.
+
+(* the insert query walks over characters that lie before the target without stopping *)
+Lemma walk_chars target l : forall rest idx lw lvc,
+  Forall pos_char l -> idx + ow lw + cw_sum l <= target ->
+  exists idx', idx' + ow (last_w l lw) = idx + ow lw + cw_sum l /\
+    iq_run target (l ++ rest) (mkIq idx lw false lvc []) =
+    iq_run target rest (mkIq idx' (last_w l lw) false (last_char l lvc) []).
+Proof.
+  induction l as [|it t IH]; intros rest idx lw lvc Hp Hle.
+  - exists idx. cbn. split; [lia|reflexivity].
+  - inversion Hp as [|? ? Hit Ht]; subst. destruct Hit as (id & w & s & -> & Hw).
+    cbn [cw_sum] in Hle. cbn [app iq_run last_w last_char cw_sum].
+    unfold iq_step, take_width. cbn [iq_lastw iq_index iq_done iq_lvc iq_cands].
+    destruct lw as [x|]; cbn [ow] in *.
+    + replace (target <=? idx + x) with false by (symmetry; apply N.leb_gt; lia).
+      cbn [iq_lastw iq_index iq_done iq_lvc iq_cands].
+      destruct (IH rest (idx + x) (Some w) (Some id) Ht) as (idx' & E1 & E2); [cbn [ow]; lia|].
+      exists idx'. split; [cbn [ow] in E1; lia|exact E2].
+    + destruct (IH rest idx (Some w) (Some id) Ht) as (idx' & E1 & E2); [cbn [ow]; lia|].
+      exists idx'. split; [cbn [ow] in E1; lia|exact E2].
+Qed.
+
+Lemma cw_sum_pos l : Forall pos_char l -> l <> [] -> 0 < cw_sum l.
+Proof.
+  intros H Hn. destruct l as [|it t]; [congruence|]. inversion H as [|? ? Hit _]; subst.
+  destruct Hit as (id & w & s & -> & Hw). cbn. lia.
+Qed.
+
+Lemma last_w_some l : Forall pos_char l -> l <> [] -> forall d, exists w, last_w l d = Some w.
+Proof.
+  induction l as [|it t IH]; intros H Hn d; [congruence|]. inversion H as [|? ? Hit Ht]; subst.
+  destruct Hit as (id & w & s & -> & Hw). cbn. destruct t as [|it2 t2]; [exists w; reflexivity|].
+  apply IH; [exact Ht|discriminate].
+Qed.
+
+Lemma last_char_some l : Forall pos_char l -> l <> [] -> forall d, exists c, last_char l d = Some c.
+Proof.
+  induction l as [|it t IH]; intros H Hn d; [congruence|]. inversion H as [|? ? Hit Ht]; subst.
+  destruct Hit as (id & w & s & -> & Hw). cbn. destruct t as [|it2 t2]; [exists id; reflexivity|].
+  apply IH; [exact Ht|discriminate].
+Qed.
+
+(* single steps of the query *)
+Lemma iq_run_cons T it t q :
+  iq_run T (it :: t) q = (if snd (iq_step T q it) then fst (iq_step T q it) else iq_run T t (fst (iq_step T q it))).
+Proof. cbn [iq_run]. destruct (iq_step T q it); reflexivity. Qed.
+
+(* a mark op met before the target is reached *)
+Lemma step_mark_before T idx lw lvc it :
+  (match it with IChar _ _ _ _ => False | _ => True end) -> idx + ow lw < T ->
+  exists idx', idx' = idx + ow lw /\ iq_step T (mkIq idx lw false lvc []) it = (mkIq idx' None false lvc [], false).
+Proof.
+  intros Hit Hlt. unfold iq_step, take_width. cbn [iq_lastw iq_index iq_done iq_lvc iq_cands].
+  destruct lw as [x|]; cbn [ow] in *.
+  - replace (T <=? idx + x) with false by (symmetry; apply N.leb_gt; lia). cbn [iq_done].
+    exists (idx + x). split; [reflexivity|]. destruct it; try destruct Hit; reflexivity.
+  - cbn [iq_done]. exists idx. split; [lia|]. destruct it; try destruct Hit; reflexivity.
+Qed.
+
+(* the element at which the target is reached: the pending width completes the index *)
+Lemma step_reach T idx x lvc it :
+  T <= idx + x ->
+  iq_step T (mkIq idx (Some x) false lvc []) it =
+  (mkIq (idx + x) None true lvc (spot [] lvc it),
+   match it with IChar _ true _ _ => match spot [] lvc it with [] => false | _ => true end | _ => false end).
+Proof.
+  intros H. unfold iq_step, take_width. cbn [iq_lastw iq_index iq_done iq_lvc iq_cands].
+  replace (T <=? idx + x) with true by (symmetry; apply N.leb_le; lia).
+  cbn [iq_lastw iq_index iq_done iq_lvc iq_cands]. destruct it as [? ? ? ?|? ?|? [|] ? ?]; reflexivity.
+Qed.
+
+(* an element met after the target was reached *)
+Lemma step_after T idx lvc cands it :
+  iq_step T (mkIq idx None true lvc cands) it =
+  (mkIq idx None true lvc (spot cands lvc it),
+   match it with IChar _ true _ _ => match spot cands lvc it with [] => false | _ => true end | _ => false end).
+Proof.
+  unfold iq_step, take_width. cbn [iq_lastw iq_index iq_done iq_lvc iq_cands].
+  destruct it as [? ? ? ?|? ?|? [|] ? ?]; reflexivity.
+Qed.
+
+Lemma last_char_none_some l c : Forall pos_char l -> l <> [] -> forall d, last_char l d = Some c -> last_char l None = Some c.
+Proof.
+  intros H Hn d. destruct l as [|it t]; [congruence|]. inversion H as [|? ? Hit _]; subst.
+  destruct Hit as (id & w & s & -> & _). cbn. auto.
+Qed.
+
+(* the reference the new element gets when the target is the START boundary of the mark: the begin op
+   itself when the mark expands before, otherwise the last character in front of it (or the head) *)
+Theorem anchor_start_boundary pre b xb n v c w s rest :
+  Forall pos_char pre -> 0 < w ->
+  anchor (cw_sum pre) (pre ++ IBegin b xb n v :: IChar c true w s :: rest) =
+  Some (if xb then b else match last_char pre None with Some l => l | None => head_id end, cw_sum pre).
+Proof.
+  intros Hp Hw. unfold anchor. destruct pre as [|p0 pre'].
+  - cbn [cw_sum app last_char]. change (0 =? 0) with true. cbv iota.
+    rewrite iq_run_cons, step_after. cbn [fst snd].
+    rewrite iq_run_cons, step_after. cbn [fst snd spot].
+    destruct xb; cbn [app]; unfold take_width; cbn [iq_lastw iq_index iq_done iq_lvc iq_cands negb rev app]; reflexivity.
+  - set (pre := p0 :: pre') in *. assert (Hne : pre <> []) by discriminate.
+    pose proof (cw_sum_pos pre Hp Hne) as Hpos.
+    replace (cw_sum pre =? 0) with false by (symmetry; apply N.eqb_neq; lia). cbv iota.
+    destruct (walk_chars (cw_sum pre) pre (IBegin b xb n v :: IChar c true w s :: rest) 0 None None Hp) as (idx' & E1 & E2);
+      [cbn [ow]; lia|].
+    rewrite E2. destruct (last_w_some pre Hp Hne None) as (wl & Ewl). destruct (last_char_some pre Hp Hne None) as (cl & Ecl).
+    rewrite Ewl, Ecl in *. cbn [ow] in E1.
+    rewrite iq_run_cons, step_reach by lia. cbn [fst snd].
+    rewrite iq_run_cons, step_after. cbn [fst snd spot].
+    replace (idx' + wl) with (cw_sum pre) by lia.
+    destruct xb; cbn [app]; unfold take_width; cbn [iq_lastw iq_index iq_done iq_lvc iq_cands negb rev app]; reflexivity.
+Qed.
+
+(* ... and when it is the END boundary: the last marked character when the mark expands after,
+   otherwise the end op *)
+Theorem anchor_end_boundary pre b xb n v mid e xe post :
+  Forall pos_char pre -> Forall pos_char mid -> mid <> [] ->
+  (post = [] \/ exists c w s t, post = IChar c true w s :: t) ->
+  anchor (cw_sum pre + cw_sum mid) (pre ++ IBegin b xb n v :: mid ++ IEnd e xe :: post) =
+  Some (if xe then match last_char mid None with Some l => l | None => head_id end else e, cw_sum pre + cw_sum mid).
+Proof.
+  intros Hp Hm Hne Hpost. unfold anchor.
+  pose proof (cw_sum_pos mid Hm Hne) as Hpos.
+  replace (cw_sum pre + cw_sum mid =? 0) with false by (symmetry; apply N.eqb_neq; lia). cbv iota.
+  set (T := cw_sum pre + cw_sum mid) in *.
+  destruct (walk_chars T pre (IBegin b xb n v :: mid ++ IEnd e xe :: post) 0 None None Hp) as (i1 & E1 & E2);
+    [cbn [ow]; lia|].
+  rewrite E2. clear E2. cbn [ow] in E1.
+  destruct (step_mark_before T i1 (last_w pre None) (last_char pre None) (IBegin b xb n v) I) as (i2 & E3 & E4); [lia|].
+  rewrite iq_run_cons, E4. cbn [fst snd]. clear E4.
+  destruct (walk_chars T mid (IEnd e xe :: post) i2 None (last_char pre None) Hm) as (i3 & E5 & E6); [cbn [ow]; lia|].
+  rewrite E6. clear E6. cbn [ow] in E5.
+  destruct (last_w_some mid Hm Hne None) as (wl & Ewl).
+  destruct (last_char_some mid Hm Hne (last_char pre None)) as (cl & Ecl).
+  rewrite (last_char_none_some mid cl Hm Hne _ Ecl).
+  rewrite Ewl, Ecl in *. cbn [ow] in E5.
+  rewrite iq_run_cons, step_reach by lia. cbn [fst snd spot find_pos].
+  replace (i3 + wl) with T by lia.
+  destruct Hpost as [->|(c & w & s & t & ->)].
+  - destruct xe; cbn [iq_run app]; unfold take_width; cbn [iq_lastw iq_index iq_done iq_lvc iq_cands negb rev app]; reflexivity.
+  - destruct xe; rewrite iq_run_cons, step_after; cbn [fst snd spot app]; unfold take_width;
+      cbn [iq_lastw iq_index iq_done iq_lvc iq_cands negb rev app]; reflexivity.
+Qed.
+
+(* where the new element lands: right after its reference (it carries the greatest id, so no sibling
+   precedes it) — [Interp.place] / [insert_after] on the element sequence *)
+Fixpoint ins_after (r : opid) (c : item) (its : list item) : list item :=
+  match its with
+  | [] => [c]
+  | x :: t => if opid_eqb (item_id x) r then x :: c :: t else x :: ins_after r c t
+  end.
+Definition place_item (r : opid) (c : item) (its : list item) : list item :=
+  if opid_eqb r head_id then c :: its else ins_after r c its.
+
+Lemma ins_after_at r c l1 x l2 :
+  ~ In r (map item_id l1) -> item_id x = r -> ins_after r c (l1 ++ x :: l2) = l1 ++ x :: c :: l2.
+Proof.
+  intros Hn Hx. induction l1 as [|y t IH]; cbn [app ins_after].
+  - rewrite Hx, opid_eqb_refl. reflexivity.
+  - destruct (opid_eqb (item_id y) r) eqn:E.
+    + apply opid_eqb_spec in E. exfalso. apply Hn. left. exact E.
+    + rewrite IH; [reflexivity|]. intros H. apply Hn. right. exact H.
+Qed.
+
+Lemma fold_chars l : Forall pos_char l -> forall st, fold_left step_open l st = st.
+Proof.
+  induction 1 as [|it t Hit _ IH]; intros st; [reflexivity|].
+  destruct Hit as (id & w & s & -> & _). cbn. apply IH.
+Qed.
+
+Lemma split_last_char l : Forall pos_char l -> l <> [] -> forall d,
+  exists l' id w s, l = l' ++ [IChar id true w s] /\ last_char l d = Some id.
+Proof.
+  induction l as [|it t IH]; intros H Hn d; [congruence|]. inversion H as [|? ? Hit Ht]; subst.
+  destruct Hit as (id & w & s & -> & Hw). destruct t as [|it2 t2].
+  - exists [], id, w, s. split; reflexivity.
+  - destruct (IH Ht ltac:(discriminate) (Some id)) as (l' & id' & w' & s' & E & El).
+    exists (IChar id true w s :: l'), id', w', s'. split; [cbn [app]; rewrite <- E; reflexivity|exact El].
+Qed.
+
+Lemma current_nil : current [] = [].
+Proof. reflexivity. Qed.
+
+Lemma current_one b n v : current [(b, n, v)] = [(n, v)].
+Proof. unfold current, names_of. cbn. unfold om_name. cbn. rewrite nlist_eqb_refl. reflexivity. Qed.
+
+(* One mark [b, e) over plain text (visible characters of positive width, no tombstones, no other mark),
+   a character inserted by the model's insert rule exactly at the START boundary: it is placed so that
+   the walk reports the mark for it iff the mark expands before. *)
+Theorem expand_single_mark_start pre b xb n v c w s rest q wq sq :
+  Forall pos_char pre -> 0 < w ->
+  NoDup (map item_id (pre ++ [IBegin b xb n v])) -> ~ In head_id (map item_id (pre ++ [IBegin b xb n v])) ->
+  let its := pre ++ IBegin b xb n v :: IChar c true w s :: rest in
+  exists r, anchor (cw_sum pre) its = Some (r, cw_sum pre) /\
+    exists l1 l2, place_item r (IChar q true wq sq) its = l1 ++ IChar q true wq sq :: l2 /\
+                  current (final_open l1) = if xb then [(n, v)] else [].
+Proof.
+  intros Hp Hw ND Hh its. eexists. split; [apply anchor_start_boundary; assumption|].
+  rewrite map_app in ND, Hh. cbn in ND, Hh.
+  assert (Hb : ~ In b (map item_id pre)).
+  { intros H. apply NoDup_remove_2 in ND. apply ND. rewrite app_nil_r. exact H. }
+  assert (Hbh : b <> head_id) by (intros ->; apply Hh; apply in_or_app; right; left; reflexivity).
+  unfold place_item. destruct xb.
+  - replace (opid_eqb b head_id) with false by (symmetry; apply not_true_iff_false; rewrite opid_eqb_spec; exact Hbh).
+    exists (pre ++ [IBegin b true n v]), (IChar c true w s :: rest). split.
+    + unfold its. rewrite ins_after_at by auto. rewrite <- app_assoc. reflexivity.
+    + unfold final_open. rewrite fold_left_app, (fold_chars pre Hp). cbn. apply current_one.
+  - destruct pre as [|p0 pre'].
+    + cbn [last_char]. rewrite opid_eqb_refl. exists [], its. split; reflexivity.
+    + destruct (split_last_char (p0 :: pre') Hp ltac:(discriminate) None) as (l' & id & w' & s' & E & El).
+      rewrite El. 
+      assert (Hid : id <> head_id).
+      { intros ->. apply Hh. apply in_or_app. left. rewrite E, map_app. apply in_or_app. right. left. reflexivity. }
+      replace (opid_eqb id head_id) with false by (symmetry; apply not_true_iff_false; rewrite opid_eqb_spec; exact Hid).
+      exists (p0 :: pre'), (IBegin b false n v :: IChar c true w s :: rest). split.
+      * unfold its. rewrite E, <- app_assoc. cbn [app]. rewrite ins_after_at; [rewrite <- app_assoc; reflexivity| |reflexivity].
+        rewrite E, map_app in ND. cbn in ND. rewrite <- app_assoc in ND. apply NoDup_remove_2 in ND.
+        intros H. apply ND. apply in_or_app. left. exact H.
+      * unfold final_open. rewrite (fold_chars _ Hp). apply current_nil.
+Qed.
+
+(* ... and exactly at the END boundary: the mark is reported for it iff the mark expands after *)
+Theorem expand_single_mark_end pre b xb n v mid e xe post q wq sq :
+  Forall pos_char pre -> Forall pos_char mid -> mid <> [] -> opid_prev e = b ->
+  (post = [] \/ exists c w s t, post = IChar c true w s :: t) ->
+  NoDup (map item_id (pre ++ IBegin b xb n v :: mid ++ [IEnd e xe])) ->
+  ~ In head_id (map item_id (pre ++ IBegin b xb n v :: mid ++ [IEnd e xe])) ->
+  let its := pre ++ IBegin b xb n v :: mid ++ IEnd e xe :: post in
+  exists r, anchor (cw_sum pre + cw_sum mid) its = Some (r, cw_sum pre + cw_sum mid) /\
+    exists l1 l2, place_item r (IChar q true wq sq) its = l1 ++ IChar q true wq sq :: l2 /\
+                  current (final_open l1) = if xe then [(n, v)] else [].
+Proof.
+  intros Hp Hm Hne He Hpost ND Hh its. eexists. split; [apply anchor_end_boundary; assumption|].
+  unfold place_item. destruct xe.
+  - destruct (split_last_char mid Hm Hne None) as (l' & id & w' & s' & E & El). rewrite El.
+    assert (Hid : id <> head_id).
+    { intros ->. apply Hh. rewrite E. rewrite map_app. apply in_or_app. right. cbn. right.
+      rewrite !map_app. apply in_or_app. left. apply in_or_app. right. left. reflexivity. }
+    replace (opid_eqb id head_id) with false by (symmetry; apply not_true_iff_false; rewrite opid_eqb_spec; exact Hid).
+    exists (pre ++ IBegin b xb n v :: mid), (IEnd e true :: post). split.
+    + unfold its. rewrite E.
+      replace (pre ++ IBegin b xb n v :: (l' ++ [IChar id true w' s']) ++ IEnd e true :: post)
+        with ((pre ++ IBegin b xb n v :: l') ++ IChar id true w' s' :: IEnd e true :: post)
+        by (repeat rewrite <- app_assoc; cbn [app]; repeat rewrite <- app_assoc; reflexivity).
+      rewrite ins_after_at; [repeat rewrite <- app_assoc; cbn [app]; repeat rewrite <- app_assoc; reflexivity| |reflexivity].
+      rewrite E in ND.
+      replace (pre ++ IBegin b xb n v :: (l' ++ [IChar id true w' s']) ++ [IEnd e true])
+        with ((pre ++ IBegin b xb n v :: l') ++ IChar id true w' s' :: [IEnd e true]) in ND
+        by (repeat rewrite <- app_assoc; cbn [app]; repeat rewrite <- app_assoc; reflexivity).
+      rewrite map_app in ND. cbn [map] in ND. apply NoDup_remove_2 in ND.
+      intros H. apply ND. apply in_or_app. left. exact H.
+    + unfold final_open. rewrite fold_left_app, (fold_chars pre Hp). cbn [fold_left step_open].
+      rewrite (fold_chars mid Hm). unfold open_begin. cbn [existsb]. apply current_one.
+  - assert (Heh : e <> head_id).
+    { intros ->. apply Hh. rewrite map_app. apply in_or_app. right. cbn. right. rewrite map_app. apply in_or_app. right. left. reflexivity. }
+    replace (opid_eqb e head_id) with false by (symmetry; apply not_true_iff_false; rewrite opid_eqb_spec; exact Heh).
+    exists (pre ++ IBegin b xb n v :: mid ++ [IEnd e false]), post. split.
+    + unfold its.
+      replace (pre ++ IBegin b xb n v :: mid ++ IEnd e false :: post)
+        with ((pre ++ IBegin b xb n v :: mid) ++ IEnd e false :: post) by (repeat rewrite <- app_assoc; cbn [app]; reflexivity).
+      rewrite ins_after_at; [repeat rewrite <- app_assoc; cbn [app]; repeat rewrite <- app_assoc; reflexivity| |reflexivity].
+      replace (pre ++ IBegin b xb n v :: mid ++ [IEnd e false])
+        with ((pre ++ IBegin b xb n v :: mid) ++ [IEnd e false]) in ND by (repeat rewrite <- app_assoc; cbn [app]; reflexivity).
+      rewrite map_app in ND. cbn [map] in ND. apply NoDup_remove_2 in ND. rewrite app_nil_r in ND. exact ND.
+    + unfold final_open. rewrite fold_left_app, (fold_chars pre Hp). cbn [fold_left step_open].
+      rewrite fold_left_app, (fold_chars mid Hm). cbn [fold_left step_open].
+      unfold open_begin, open_end. cbn [existsb filter om_id fst]. rewrite He, opid_eqb_refl. cbn. apply current_nil.
+Qed.
+
+(* ------------------------------------------------------------------ get_marks(i) is NOT a reader by text index *)
+(* UTF-8 text e-acute, "a", "b" with bold over [2,3) (the "a"): marks() and the pointwise marking put
+   the mark at text index 2, get_marks answers for index 1 (it counts elements) *)
+Definition refute_ops : list op :=
+  [ mkOp (1, [1]) root_id (KMap [116]) false (AMake OText) [];
+    mkOp (2, [1]) (1, [1]) (KSeq head_id) true (APut (SStr [233])) [];
+    mkOp (3, [1]) (1, [1]) (KSeq (2, [1])) true (APut (SStr [97])) [];
+    mkOp (4, [1]) (1, [1]) (KSeq (3, [1])) true (APut (SStr [98])) [];
+    mkOp (5, [1]) (1, [1]) (KSeq (2, [1])) true (AMarkBegin false [98; 111; 108; 100] (SBool true)) [];
+    mkOp (6, [1]) (1, [1]) (KSeq (3, [1])) true (AMarkEnd false) [] ].
+
+Theorem get_marks_text_index_refuted :
+  exists (e : enc) (ops : list op) (obj : opid) (i : nat),
+    let its := text_view e ops obj in
+    marks its = [(2, 3, [98; 111; 108; 100], SBool true)] /\
+    get_marks its i <> without_unmarks (marks_at_pos its (N.of_nat i)).
+Proof.
+  exists EncU8, refute_ops, (1, [1]), 1%nat. split; [vm_compute; reflexivity|].
+  vm_compute. discriminate.
+Qed.
